@@ -7,15 +7,11 @@ Open Scope string_scope.
 
 Definition c19_skel_full : skeleton := mkSkeleton skel_funs skel_ifaces skel_slots skel_roots.
 
-(* KNOWN FINDING C19/2 (confirmed by the race detector, findings/C19.json): SwapStateMachine.Recover runs the action of
-   the current state and persists the swap WITHOUT the swap's mutex although RecoverSwaps has already put the swap into
-   the active map, so messages and notifications for it are handled concurrently.  Taken out of the skeleton by removing
-   exactly those two calls from Recover: (function, (op code 8 = CallIface, interface method)).  (It is not repaired
-   because with the mutex held the synchronous CSV callback of finding C18/1 would block recovery.) *)
-Definition c19_known_ops : list (string * (N * string)) := [
-  ("swap.SwapStateMachine.Recover", (8%N, "swap.Action.Execute"));
-  ("swap.SwapStateMachine.Recover", (8%N, "swap.Store.UpdateData"))
-].
+(* Finding C19/2 is REPAIRED ("fix: swap: recover a swap under its mutex"): SwapStateMachine.Recover ran the action of
+   the current state and persisted the swap WITHOUT the swap's mutex although RecoverSwaps had already put the swap
+   into the active map.  Nothing is taken out of the skeleton any more:
+   (function, (op code 8 = CallIface, interface method)) *)
+Definition c19_known_ops : list (string * (N * string)) := [].
 Definition c19_known_op_ids : list (N * (N * N)) :=
   resolve_ops skel_fn_names skel_lock_names skel_field_names skel_iface_names skel_slot_names c19_known_ops.
 
@@ -33,9 +29,7 @@ Definition c19_must_full : list (N * list N) := Eval vm_compute in must_hold c19
    swap's own mutex, attaches the request to the data (ApplyToSwapData).  (field, function, function) *)
 Definition c19_known : list (string * (string * string)) := [
   ("swap.SwapData.SwapInRequest", ("swap.SwapData.GetScid", "swap.SwapInRequestMessage.ApplyToSwapData"));
-  ("swap.SwapData.SwapOutRequest", ("swap.SwapData.GetScid", "swap.SwapOutRequestMessage.ApplyToSwapData"));
-  (* finding C19/2: Recover itself reads the current state unlocked *)
-  ("swap.SwapStateMachine.Current", ("swap.SwapStateMachine.Recover", "swap.SwapStateMachine.setState"))
+  ("swap.SwapData.SwapOutRequest", ("swap.SwapData.GetScid", "swap.SwapOutRequestMessage.ApplyToSwapData"))
 ].
 
 (* start-up: these run once, from main, before the service accepts messages, commands or notifications
